@@ -17,6 +17,7 @@
 #define _GNU_SOURCE
 #endif
 #include <stdio.h>
+#include <ctype.h>
 #include <stdlib.h>
 #include <string.h>
 #include <stdint.h>
@@ -158,6 +159,7 @@ static int vh_finish(void) {
  * Runs fn(ctx) in a child; the child's return value (0..250) is its exit status.  stdout/stderr of the child are
  * captured into memfds so that sanitizer reports and diagnostics become observations.
  * obs->kind: 0 = returned normally (obs->ret), 1 = sanitizer report, 2 = abort/assert, 3 = other signal, 4 = timeout */
+static void vh_strip_addrs(char *w) { /* addresses vary between runs: 0x.... -> 0xADDR */ char *o = w; for (char *c = w; *c; ) { if (c[0] == '0' && c[1] == 'x' && isxdigit((unsigned char)c[2])) { c += 2; while (isxdigit((unsigned char)*c)) c++; memcpy(o, "0xADDR", 6); o += 6; } else *o++ = *c++; } *o = 0; }
 typedef struct { int kind; int ret; int sig; char what[160]; char *out; size_t outlen; char *err; size_t errlen; } vh_obs_t;
 static int vh_mfd_out = -1, vh_mfd_err = -1;
 static void vh_fork_setup(void) {
@@ -197,7 +199,7 @@ static int vh_fork(int (*fn)(void *), void *ctx, int timeout_s, vh_obs_t *o, voi
 		(void)f; size_t l = strlen(o->what); snprintf(o->what + l, sizeof o->what - l, "@%s", fn1);
 	} else if ((p = strstr(o->err, "runtime error: "))) {
 		o->kind = 1; snprintf(o->what, sizeof o->what, "ubsan:%.*s", (int)strcspn(p + 15, "\n"), p + 15);
-		for (char *c = o->what; *c; c++) if (*c == ' ' || *c == '\t') *c = '_';
+		for (char *c = o->what; *c; c++) if (*c == ' ' || *c == '\t') *c = '_'; vh_strip_addrs(o->what);
 		/* drop addresses / numbers that vary */
 	} else if (WIFSIGNALED(st)) {
 		o->sig = WTERMSIG(st);
@@ -229,7 +231,7 @@ static void vh_guarded(const char *prefix, void (*body)(void), int case_timeout_
 			const char *fr = p; char fn1[80] = "";
 			while ((fr = strstr(fr, " in "))) { fr += 4; if (!strncmp(fr, "__", 2) || !strncmp(fr, "mem", 3) || !strncmp(fr, "str", 3) || strstr(fr, "printf") == fr || !strncmp(fr, "vfprintf", 8) || !strncmp(fr, "fprintf", 7)) continue; snprintf(fn1, sizeof fn1, "%.*s", (int)strcspn(fr, " \n"), fr); break; }
 			snprintf(what, sizeof what, "%s@%s", kind, fn1);
-		} else if ((p = strstr(err, "runtime error: "))) { snprintf(what, sizeof what, "ubsan:%.*s", (int)strcspn(p + 15, "\n"), p + 15); for (char *c = what; *c; c++) if (*c == ' ') *c = '_'; }
+		} else if ((p = strstr(err, "runtime error: "))) { snprintf(what, sizeof what, "ubsan:%.*s", (int)strcspn(p + 15, "\n"), p + 15); for (char *c = what; *c; c++) if (*c == ' ') *c = '_'; vh_strip_addrs(what); }
 		else if (WIFSIGNALED(st) && WTERMSIG(st) == SIGALRM) snprintf(what, sizeof what, "timeout");
 		else if (WIFSIGNALED(st) && WTERMSIG(st) == SIGABRT) { const char *a = strstr(err, "Assertion"); if (a) { snprintf(what, sizeof what, "abort:%.*s", (int)strcspn(a, "\n"), a); for (char *c = what; *c; c++) if (*c == ' ') *c = '_'; } else snprintf(what, sizeof what, "abort"); }
 		else if (WIFSIGNALED(st)) snprintf(what, sizeof what, "signal-%d", WTERMSIG(st));
